@@ -1,6 +1,6 @@
 (* C17 - Front-ends present the same figures.  Statements only. *)
 From Coq Require Import QArith Qcanon ZArith NArith List Bool Ascii String.
-Require Import CGT.Model.Num CGT.Model.Date CGT.Model.Dsl CGT.Model.Fmt CGT.Proofs.FmtFacts.
+Require Import CGT.Model.Num CGT.Model.Date CGT.Model.Dsl CGT.Model.Fmt CGT.Proofs.FmtFacts CGT.Proofs.FmtDates CGT.Proofs.FmtQty CGT.Proofs.DecFacts.
 Import ListNotations.
 
 (* The pence that format_gbp prints, with their sign, are exactly the value rounded to two places with
@@ -39,6 +39,24 @@ Example C17_quantity_exact : format_dec_trimmed {| d_mant := 1500; d_scale := 3 
   format_dec_trimmed {| d_mant := 123456789; d_scale := 9 |} = T "0.123456789".
 Proof. repeat split; vm_compute; reflexivity. Qed.
 
+(* Quantities are shown exactly.  The trimmed text of any decimal the type holds (trailing zeros and a bare point removed),
+   followed by anything that is not a digit or a point, reads back as a decimal of the same value (mant = mant' * 10^(scale - scale')),
+   and it shows no trailing zero. *)
+Theorem C17_quantity_exact_all : forall d rest, dec_ok d = true -> stops rest ->
+  exists ip fp d', lex_decimal (format_dec_trimmed d ++ rest) = Some (ip, fp, rest) /\ parse_dec ip fp = DOk d' /\
+    (d_scale d' <= d_scale d)%nat /\ d_mant d = (d_mant d' * 10 ^ N.of_nat (d_scale d - d_scale d'))%N /\
+    (fp = [] \/ exists f c, fp = f ++ [c] /\ is0 c = false).
+Proof. exact trimmed_exact. Qed.
+
+(* Dates read DD/MM/YYYY and tax years YYYY/YY: the shown text determines the date / the year. *)
+Theorem C17_date_format : forall d, (0 <= dy d <= 9999)%Z -> (0 <= dm d < 100)%Z -> (0 <= dd d < 100)%Z -> read_dmy (format_date d) = Some d.
+Proof. exact read_format_date. Qed.
+Theorem C17_tax_year_format : forall y, (0 <= y <= 9999)%Z -> read_tax_year (format_tax_year y) = Some (y, ((y + 1) mod 100)%Z).
+Proof. exact read_format_tax_year. Qed.
+
+Print Assumptions C17_quantity_exact_all.
+Print Assumptions C17_date_format.
+Print Assumptions C17_tax_year_format.
 Print Assumptions C17_gbp_value.
 Print Assumptions C17_gbp_reads_back.
 Print Assumptions C17_json_money.
